@@ -313,7 +313,7 @@ theorem adjusted_written (env : CliEnv) (cfg : Cfg) (top : Option Nat) (sel : St
       f.tunedText = (cfg.pairEval f.originalText f.bg).tuned ∧
       ((viaVarOf env st (strip env cd.value) = none ∧
           items' = setDeclValue (seenItems top items0 st) ci f.tunedText ∧
-          lastDecl items' "color".toList = some (ci, { cd with value := f.tunedText }) ∧
+          lastDecl items' "color".toList = some (ci, { cd with value := f.tunedText ++ cd.comments }) ∧
           st'.vars = st.vars ∧
           (∀ i, top = some i → getRoot st i ≠ none → getRoot st' i = some items') ∧
           (top = none → st'.rootDecls = st.rootDecls)) ∨
@@ -343,7 +343,7 @@ theorem written_value_direct (env : CliEnv) (cfg : Cfg) (top : Option Nat) (sel 
     (hdirect : viaVarOf env st (strip env cd.value) = none)
     (items' : List Item) (st' : St) (hok : processRule env cfg top sel items0 st = .ok (items', st')) :
     let v := (evalOf env cfg st (seenItems top items0 st) cd).tuned
-    lastDecl items' "color".toList = some (ci, { cd with value := v }) ∧
+    lastDecl items' "color".toList = some (ci, { cd with value := v ++ cd.comments }) ∧
     items' = setDeclValue (seenItems top items0 st) ci v ∧
     ∃ f : Fixed, st'.fixedDetails = f :: st.fixedDetails ∧ f.tunedText = v ∧ f.selector = sel := by
   have h := processRule_verdict env cfg top sel items0 st ci cd hl
@@ -362,7 +362,7 @@ def DirectOutcome (env : CliEnv) (cfg : Cfg) (sel : Str) (a b : List Item) : Pro
   b = a ∨ ∃ (st st' : St) (ci : Nat) (cd : Decl) (f : Fixed),
     processRule env cfg none sel a st = .ok (b, st') ∧ st'.fixedDetails = f :: st.fixedDetails ∧ f.selector = sel ∧
     lastDecl a "color".toList = some (ci, cd) ∧ b = setDeclValue a ci f.tunedText ∧
-    lastDecl b "color".toList = some (ci, { cd with value := f.tunedText })
+    lastDecl b "color".toList = some (ci, { cd with value := f.tunedText ++ cd.comments })
 
 /-- `written_in_file_direct`: in a written file, every node other than a top-level `:root` / `html` rule is
     the input node in which each visited rule is either unchanged or has exactly its text-colour declaration
